@@ -70,7 +70,9 @@ func (lfu *LFUCacheEvictionPolicy) TrackSetAndReturnEvictedKeys(key string, size
 	lfu.evictionChecker.TrackSet(key, size)
 
 	evictedKeys := []string{}
-	for lfu.evictionChecker.ShouldEvict() {
+	// Stop when nothing is left to evict: an entry larger than the limit (or a key limit of 0) must not
+	// pop the empty heap; the new entry is pushed below and becomes the next eviction candidate.
+	for lfu.evictionChecker.ShouldEvict() && lfu.minLFUCacheHeap.Len() > 0 {
 		cacheEntryToEvict := heap.Pop(&lfu.minLFUCacheHeap).(*LFUCacheEntry)
 		lfu.evictionChecker.TrackRemove(cacheEntryToEvict.key)
 		evictedKeys = append(evictedKeys, cacheEntryToEvict.key)
